@@ -37,7 +37,9 @@ Lemma through_prefix c forked D : asc D ->
   (forall b, In b D -> bid b = ri (cu_blk c) -> bnum b = rn (cu_blk c)) ->
   exists D1 D2, D = D1 ++ D2 /\
     fst (resolver_run c true forked rs_init D) = map fev D1 /\
-    (snd (resolver_run c true forked rs_init D) = RsOk \/ snd (resolver_run c true forked rs_init D) = RsNotImplemented).
+    (snd (resolver_run c true forked rs_init D) = RsOk \/ snd (resolver_run c true forked rs_init D) = RsNotImplemented) /\
+    (* when the delivery contains the cursor block and the run ends normally everything was handed over *)
+    ((exists b, In b D /\ bid b = ri (cu_blk c)) -> snd (resolver_run c true forked rs_init D) = RsOk -> D2 = []).
 Proof.
   intros Hasc Hcons. destruct (through_split c D Hasc) as (low & mid & top & -> & Hlow & Hmid & Htop & _).
   destruct (first_with_id (ri (cu_blk c)) low) as [Hnone|(l1 & h & l2 & -> & Hh & Hl1)].
@@ -46,7 +48,11 @@ Proof.
     { rewrite Forall_forall in *. intros x Hx. split; [apply Hlow | apply Hnone]; exact Hx. }
     unfold rs_init. rewrite (pass_low c forked low [] (mid ++ top) Hl2), (pass_buffer c forked mid [] top Hmid). cbn [app fst snd].
     destruct top as [|b post].
-    + exists low, mid. cbn [resolver_run fst snd]. rewrite !app_nil_r. split; [reflexivity|]. split; [reflexivity | left; reflexivity].
+    + exists low, mid. cbn [resolver_run fst snd]. rewrite !app_nil_r. split; [reflexivity|]. split; [reflexivity|]. split; [left; reflexivity|].
+      intros (b & Hb & Eb) _. exfalso. apply in_app_or in Hb as [Hb|Hb].
+      * rewrite Forall_forall in Hnone. exact (Hnone b Hb Eb).
+      * assert (Hbn : bnum b = rn (cu_blk c)) by (apply Hcons; [apply in_or_app; right; rewrite app_nil_r; exact Hb | exact Eb]).
+        rewrite Forall_forall in Hmid. specialize (Hmid b Hb). lia.
     + pose proof (Forall_inv Htop) as [Hb1 Hb2]. destruct (N.eq_dec (bid b) (ri (cu_blk c))) as [Eb|Eb].
       * rewrite (pass_hit c forked mid b post Hb1 Hb2 Eb). cbn [fst snd]. rewrite sb_between.
         assert (Hbn : bnum b = rn (cu_blk c)).
@@ -55,17 +61,17 @@ Proof.
         { unfold between. apply (Proofs.C06_Lists.filter_all _ _ (mid ++ [b])). apply Forall_app. split.
           - eapply Forall_impl; [|exact Hmid]. cbn beta. intros x [H1 H2]. apply andb_true_iff. split; [apply N.ltb_lt | apply N.leb_le]; lia.
           - constructor; [|constructor]. apply andb_true_iff. split; [apply N.ltb_lt | apply N.leb_le]; lia. }
-        rewrite Ebt. exists (low ++ mid ++ b :: post), []. rewrite app_nil_r. split; [reflexivity|]. split; [|left; reflexivity].
+        rewrite Ebt. exists (low ++ mid ++ b :: post), []. rewrite app_nil_r. split; [reflexivity|]. split; [|split; [left; reflexivity | intros _ _; reflexivity]].
         rewrite !map_app. cbn [map]. rewrite <- !app_assoc. reflexivity.
       * rewrite (pass_miss c forked mid b post Hb1 Hb2 Eb). cbn [fst snd]. rewrite app_nil_r.
-        exists low, (mid ++ b :: post). split; [reflexivity|]. split; [reflexivity | right; reflexivity].
+        exists low, (mid ++ b :: post). split; [reflexivity|]. split; [reflexivity|]. split; [right; reflexivity | intros _ E; discriminate].
   - (* a final target cursor: recognised while passing *)
     apply Forall_app in Hlow as [Hlow1 Hlow2]. pose proof (Forall_inv Hlow2) as Hhn. cbn beta in Hhn.
     assert (Hl2 : Forall (fun x => bnum x <= rn (cu_lib c) /\ bid x <> ri (cu_blk c)) l1).
     { rewrite Forall_forall in *. intros x Hx. split; [apply Hlow1 | apply Hl1]; exact Hx. }
     unfold rs_init. rewrite <- !app_assoc. cbn [app].
     rewrite (pass_low c forked l1 [] (h :: l2 ++ mid ++ top) Hl2), (pass_low_hit c forked [] h (l2 ++ mid ++ top) Hhn Hh). cbn [fst snd].
-    exists (l1 ++ h :: l2 ++ mid ++ top), []. rewrite app_nil_r. split; [reflexivity|]. split; [|left; reflexivity].
+    exists (l1 ++ h :: l2 ++ mid ++ top), []. rewrite app_nil_r. split; [reflexivity|]. split; [|split; [left; reflexivity | intros _ _; reflexivity]].
     rewrite map_app. reflexivity.
 Qed.
 
@@ -76,11 +82,15 @@ Lemma through_run_prefix canon forked start c stop bundle :
   exists D1 D2, file_delivery canon start stop bundle = D1 ++ D2 /\
     fst (through_cursor_run canon forked start c stop bundle) = map fev D1 /\
     (snd (through_cursor_run canon forked start c stop bundle) = RsOk \/
-     snd (through_cursor_run canon forked start c stop bundle) = RsNotImplemented).
+     snd (through_cursor_run canon forked start c stop bundle) = RsNotImplemented) /\
+    ((rn (cu_blk c) < start \/ exists b, In b (file_delivery canon start stop bundle) /\ bid b = ri (cu_blk c)) ->
+     snd (through_cursor_run canon forked start c stop bundle) = RsOk -> D2 = []).
 Proof.
-  intros Hasc Hcons. unfold through_cursor_run, through_resolver_run. destruct (rn (cu_blk c) <? start).
+  intros Hasc Hcons. unfold through_cursor_run, through_resolver_run. destruct (N.ltb_spec (rn (cu_blk c)) start) as [Hlt|Hge].
   - exists (file_delivery canon start stop bundle), []. rewrite app_nil_r. cbn [fst snd]. auto.
-  - apply through_prefix; assumption.
+  - destruct (through_prefix c forked _ Hasc Hcons) as (D1 & D2 & E & H1 & H2 & H3).
+    exists D1, D2. split; [exact E|]. split; [exact H1|]. split; [exact H2|].
+    intros [Hl|Hex]; [lia | exact (H3 Hex)].
 Qed.
 
 (* ------------------------------------------------------------------ hub_through_cursor for a number *)
